@@ -2524,6 +2524,13 @@ class Trimesh(Geometry3D):
                 )
             )
 
+        if has_rotation:
+            # the moved normals were put into the cache directly
+            # so make them read-only like every other cached array
+            for key in ("face_normals", "vertex_normals"):
+                if key in self._cache.cache:
+                    self._cache.cache[key].flags.writeable = False
+
         # if transformation flips winding of triangles
         flipped = has_rotation and transformations.flips_winding(matrix)
         if flipped:
